@@ -177,6 +177,9 @@ pub struct NetBehaviour {
     pub dup_gap_us: u64,
     /// Virtual time a failing socket operation of a send takes (a failed bind / connect / send_to is not free).
     pub fail_cost_us: u64,
+    /// TCP: probability (percent) that a router's answer reaches the tracer as an error on the connecting socket
+    /// (EHOSTUNREACH + error queue) instead of as an ICMP message on the raw socket.
+    pub tcp_sockerr_pct: u8,
 }
 
 impl Default for NetBehaviour {
@@ -190,6 +193,7 @@ impl Default for NetBehaviour {
             dup_pct: 0,
             dup_gap_us: 500,
             fail_cost_us: 0,
+            tcp_sockerr_pct: 0,
         }
     }
 }
